@@ -258,6 +258,7 @@ func genC20(p *plan.Plan, r *plan.Rng, tier string) {
 // task; the schedule is drawn from the plan's random stream.
 func asTasks(p *plan.Plan, r *plan.Rng) {
 	p.Tasks = true
+	p.Config.SmallMaps = true
 	p.Order = nil
 	if len(p.Sessions) > 8 {
 		p.Sessions = p.Sessions[:8]
@@ -277,7 +278,7 @@ func asTasks(p *plan.Plan, r *plan.Rng) {
 	// a few explicit site-based change points (PCT-like): the n-th passage of
 	// a class-A site
 	for k := r.Intn(4); k > 0; k-- {
-		p.Sched.Points = append(p.Sched.Points, plan.Point{Site: 1<<24 | uint32(r.Intn(400)), Occ: uint32(r.Range(1, 3)), To: r.Intn(len(p.Sessions))})
+		p.Sched.Points = append(p.Sched.Points, plan.Point{Site: 1<<24 | uint32(r.Intn(400)), Occ: uint32(r.Range(1, 3)), Task: -1, To: r.Intn(len(p.Sessions))})
 	}
 }
 
